@@ -160,13 +160,11 @@ fn check(case: &AttrCase, run: &mut Run) -> Result<(), String> {
     // 2. item permutations of the combined #[logos(...)] attribute (subpatterns keep their relative order)
     if case.logos_items.len() >= 2 {
         for perm in permutations(&case.logos_items, 40, case.perm_seed ^ 0x55) {
-            let subs_in_order = {
-                let a: Vec<&String> = perm.iter().filter(|i| i.2).map(|i| &i.0).collect();
-                let b: Vec<&String> = case.logos_items.iter().filter(|i| i.2).map(|i| &i.0).collect();
-                a == b
-            };
+            // independent subpatterns move freely; a subpattern stays behind the ones it refers to
+            let subs_in_order = true;
             // dependency-respecting: every subpattern is defined before any item that refers to it
-            let defined_before_use = ["ws", "ws2", "hi"].iter().all(|name| {
+            let names: Vec<String> = case.logos_items.iter().filter(|i| i.2).filter_map(|i| i.0.split_whitespace().nth(1).map(|n| n.to_string())).collect();
+            let defined_before_use = names.iter().all(|name| {
                 let def_pos = perm.iter().position(|i| i.0.starts_with(&format!("subpattern {name} =")));
                 let first_use = perm.iter().position(|i| i.0.contains(&format!("(?&{name})")));
                 match (def_pos, first_use) {
@@ -278,6 +276,14 @@ fn strategy() -> BoxedStrategy<AttrCase> {
             ("crate = other::logos", false, false),
             ("subpattern ws = \"[ \\n]\"", false, true),
             ("subpattern ws2 = \"(?&ws)(?&ws)\"", false, true),
+            // names in every case and shape, independent of each other and one depending on another
+            ("subpattern Hex = \"[0-9a-f]\"", false, true),
+            ("subpattern alpha = \"[a-z]\"", false, true),
+            ("subpattern word = \"(?&alpha)+\"", false, true),
+            ("subpattern _Z9 = \"z\"", false, true),
+            ("subpattern B = \"b|B\"", false, true),
+            ("skip(\"#(?&Hex)+\")", true, false),
+            ("skip \"@(?&word)\"", true, false),
             ("export_dir = \"/nonexistent/x\"", false, false),
             // only acceptable together with utf8 = false, wherever that item stands
             ("subpattern hi = b\"[\\x80-\\xff]\"", false, true),
@@ -346,6 +352,11 @@ fn strategy() -> BoxedStrategy<AttrCase> {
             if uses_ws && !li.iter().any(|i| i.0.starts_with("subpattern ws =")) {
                 li.insert(0, ("subpattern ws = \"[ \\n]\"".to_string(), false, true));
             }
+            for (name, def) in [("Hex", "subpattern Hex = \"[0-9a-f]\""), ("word", "subpattern word = \"(?&alpha)+\""), ("alpha", "subpattern alpha = \"[a-z]\"")] {
+                if li.iter().any(|i| i.0.contains(&format!("(?&{name})"))) && !li.iter().any(|i| i.0.starts_with(&format!("subpattern {name} ="))) {
+                    li.insert(0, (def.to_string(), false, true));
+                }
+            }
             if li.iter().any(|i| i.0.contains("(?&hi)")) && !li.iter().any(|i| i.0.starts_with("subpattern hi =")) {
                 li.insert(0, ("subpattern hi = b\"[\\x80-\\xff]\"".to_string(), false, true));
             }
@@ -356,7 +367,7 @@ fn strategy() -> BoxedStrategy<AttrCase> {
                 li.push(("utf8 = false".to_string(), false, false));
             }
             // canonical order: subpatterns first (ws before ws2), then the rest as generated
-            li.sort_by_key(|i| if i.0.starts_with("subpattern ws =") { 0 } else if i.2 { 1 } else { 2 });
+            li.sort_by_key(|i| if i.0.starts_with("subpattern ws =") || i.0.starts_with("subpattern alpha =") { 0 } else if i.2 { 1 } else { 2 });
             let glue = (perm_seed >> 7) % 3 == 0;
             AttrCase { form, literal, positional_cb, named, logos_items: li, perm_seed, generic, glue }
         })
